@@ -22,7 +22,7 @@ import (
 // transactions must never become visible.
 
 func init() {
-	register(&simcore.Check{ID: "C13", Bubble: true, Liveness: true, Body: c13Body})
+	register(&simcore.Check{ID: "C13", Bubble: true, Liveness: true, Body: c13Body, AltBody: c13bBody, AltPct: 15})
 }
 
 type c13Stmt struct {
@@ -79,7 +79,20 @@ func c13Body(r *simcore.Run) {
 	if err != nil {
 		r.Violation("scan-error", "", "final scan failed: %v", err)
 	}
+	c13Analyse(r, all, observed, final)
+	s.se.st.Close()
+	r.Sig("c13", len(all), useSavepoints)
+	nc := 0
+	for _, t := range all {
+		if t.Outcome == "committed" {
+			nc++
+		}
+	}
+	r.Sample(map[string]interface{}{"sessions": nSess, "transactions": len(all), "committed": nc, "savepoints": useSavepoints, "example": c13Dump(all[0])})
+}
 
+// c13Analyse: the recorded transactions against the reference interpreter.
+func c13Analyse(r *simcore.Run, all []*c13Tx, observed [][]string, final [][]string) {
 	// serial replay in commit order
 	var committed []*c13Tx
 	for _, t := range all {
@@ -147,9 +160,6 @@ func c13Body(r *simcore.Run) {
 			}
 		}
 	}
-	s.se.st.Close()
-	r.Sig("c13", len(all), len(committed), useSavepoints)
-	r.Sample(map[string]interface{}{"sessions": nSess, "transactions": len(all), "committed": len(committed), "savepoints": useSavepoints, "example": c13Dump(all[0])})
 }
 
 func c13Render(rows [][]string) []string {
@@ -257,7 +267,7 @@ func c13ReplayInner(state map[int]int, t *c13Tx, apply bool) string {
 				return fmt.Sprintf("statement %d (%s) succeeded although the key exists in the serial execution", i, st.SQL)
 			}
 			work[st.ID] = st.V
-			if st.Affected != 1 {
+			if st.Affected >= 0 && st.Affected != 1 {
 				return fmt.Sprintf("statement %d (%s) reports %d affected rows, expected 1", i, st.SQL, st.Affected)
 			}
 		case "upd":
@@ -266,7 +276,7 @@ func c13ReplayInner(state map[int]int, t *c13Tx, apply bool) string {
 				work[st.ID] = st.V
 				n = 1
 			}
-			if st.Affected != n {
+			if st.Affected >= 0 && st.Affected != n {
 				return fmt.Sprintf("statement %d (%s) reports %d affected rows, the serial execution updates %d", i, st.SQL, st.Affected, n)
 			}
 		case "del":
@@ -275,7 +285,7 @@ func c13ReplayInner(state map[int]int, t *c13Tx, apply bool) string {
 				delete(work, st.ID)
 				n = 1
 			}
-			if st.Affected != n {
+			if st.Affected >= 0 && st.Affected != n {
 				return fmt.Sprintf("statement %d (%s) reports %d affected rows, the serial execution deletes %d", i, st.SQL, st.Affected, n)
 			}
 		case "sel":
